@@ -720,6 +720,13 @@ CMR_ERROR CMRbalancedTest(CMR* cmr, CMR_CHRMAT* matrix, bool* pisBalanced, CMR_S
     stats->totalTime += time;
   }
 
-  return time < timeLimit ? CMR_OKAY : CMR_ERROR_TIMEOUT;
+  if (time < timeLimit)
+    return CMR_OKAY;
+
+  /* In case of a timeout we do not hand out a submatrix. */
+  if (psubmatrix && *psubmatrix)
+    CMR_CALL( CMRsubmatFree(cmr, psubmatrix) );
+
+  return CMR_ERROR_TIMEOUT;
 }
 
